@@ -242,6 +242,40 @@ func accScenarios(tier string) []*mc.Scenario {
 			return nil
 		},
 	})
+	// token events for the temporary connection of an HTTP call while its
+	// access (or header auth) request is outstanding: the call must carry
+	// the token current when it is made
+	for _, method := range []string{"POST", "PUT"} {
+		method := method
+		out = append(out, &mc.Scenario{
+			Name: "acc/http-token/" + method, Props: []string{"C05", "C10"}, Init: basicInit, Monitors: allMons(),
+			Cfg:  func(c *server.Config) { m := "put"; c.PUTMethod = &m },
+			Slow: func(r *mc.Req) bool { return subjectIs(r, "access.") },
+			Threads: []mc.Thread{
+				{Name: "http", Ops: []mc.Op{
+					op(method+" m", 0, func(w *mc.World) {
+						if method == "POST" {
+							w.HTTP(mc.HTTPReq{Method: "POST", URL: "/api/test/m/set", Body: `{"a":1}`})
+						} else {
+							w.HTTP(mc.HTTPReq{Method: "PUT", URL: "/api/test/m", Body: `{"a":1}`})
+						}
+					}),
+				}},
+				{Name: "svc", Ops: []mc.Op{
+					{Name: "token=1", Phase: 0, When: func(w *mc.World) bool { return w.Svc.HTTPCID() != "" },
+						Do: func(w *mc.World) { w.Svc.TokenEventCID(w.Svc.HTTPCID(), `{"u":1}`) }},
+					{Name: "token=2", Phase: 0, When: func(w *mc.World) bool { return w.Svc.HTTPCID() != "" },
+						Do: func(w *mc.World) { w.Svc.TokenEventCID(w.Svc.HTTPCID(), `{"u":2}`) }},
+				}},
+			},
+			Menu: func(w *mc.World, r *mc.Req) []mc.Outcome {
+				if subjectIs(r, "access.") {
+					return []mc.Outcome{w.OK(r), mc.Raw("deny", `{"result":{"get":false,"call":"set"}}`), mc.Timeout()}
+				}
+				return nil
+			},
+		})
+	}
 	return out
 }
 
